@@ -25,6 +25,7 @@ ASSUMPTIONS = [
     "parent links of nodes that no node lists are not constrained (the library keeps stale links after remove/replace/clear); "
     "get_ancestry is compared from the model root downwards and is not called when stale links close a cycle (it would not return)",
     "find_single_node_by_path follows the first child of each name (as documented), find_all_nodes_by_path all of them",
+    "find_all_descendants delivers its result by appending the matches, in document order, to the list it is given (the list is an accumulator: what it held before stays)",
     "replace_child is driven with delete_old=False in the exhaustive part and with both settings in the random histories (the default deletes the old subtree from the registry, which is C14's subject; the ordered-tree invariants must hold regardless)",
 ]
 REQUIRED = ["sibling_pair_steps", "accumulator_queries", "vocabulary_probes", "wide_parent_steps", "deep_chain_nodes", "steps", "failing_edits", "edge_shifts_positional", "edge_shifts_samename", "query_evaluations", "states_expanded"]
